@@ -1,4 +1,5 @@
 import ArimModel.Assembly
+import ArimProofs.Tie.C08
 import ArimProofs.C13
 import Mathlib.Algebra.Group.Basic
 import Mathlib.Algebra.BigOperators.Group.Finset.Basic
@@ -270,6 +271,40 @@ theorem directivity_normal_real (sinc : ℝ → ℝ) (h1 : sinc 0 = 1) (w lam : 
 theorem directivity_normal_npsinc (w lam : ℝ) :
     directivity (fun x => Real.sinc (Real.pi * x)) Real.sin w 0 lam = 1 :=
   directivity_normal_real _ (by simp) w lam
+
+/-! ### the directivity of the code as translated on this run (`Generated/SrcC08.lean`, `Tie/C08.lean`) -/
+open Arim.Tie.C08 in
+/-- the routines of the translated code at `K = ℝ`, with NumPy's normalised `sinc` -/
+noncomputable def srcOps : Src.Ops ℝ :=
+  { sin := Real.sin, cos := Real.cos, asin := Real.arcsin, sqrt := Real.sqrt, exp := Real.exp,
+    sinc := fun x => Real.sinc (Real.pi * x),
+    pi := Real.pi, ofNat := fun n => (n : ℝ), ofInt := fun z => (z : ℝ),
+    floor := fun x => ⌊x⌋, round := fun x => round x, trunc := fun x => ⌊x⌋ }
+
+open Arim.Tie.C08 in
+/-- **directivity law, translated code**: for a non-negative width and wavelength the function returns
+`sinc(π · (a/λ) sin θ)`; it raises otherwise -/
+theorem src_directivity_law (θ w lam : ℝ) (hw : 0 ≤ w) (hl : 0 ≤ lam) :
+    Src.directivity_2d_rectangular_in_fluid srcOps θ w lam = some (Real.sinc (Real.pi * ((w / lam) * Real.sin θ))) := by
+  rw [tie_directivity_ok srcOps θ w lam (by simpa [srcOps] using hw) (by simpa [srcOps] using hl)]
+  rfl
+
+open Arim.Tie.C08 in
+/-- a negative element width or wavelength is rejected (translated code) -/
+theorem src_directivity_rejects (θ w lam : ℝ) (h : w < 0 ∨ lam < 0) :
+    Src.directivity_2d_rectangular_in_fluid srcOps θ w lam = none := by
+  rw [tie_directivity]
+  rcases h with h | h
+  · rw [if_pos (by simpa [srcOps] using h)]
+  · by_cases hw : w < srcOps.ofNat 0
+    · rw [if_pos hw]
+    · rw [if_neg hw, if_pos (by simpa [srcOps] using h)]
+
+open Arim.Tie.C08 in
+/-- at normal exit the translated directivity is one -/
+theorem src_directivity_normal (w lam : ℝ) (hw : 0 ≤ w) (hl : 0 ≤ lam) :
+    Src.directivity_2d_rectangular_in_fluid srcOps 0 w lam = some 1 := by
+  rw [src_directivity_law 0 w lam hw hl]; simp
 end dir
 
 
